@@ -29,32 +29,32 @@ Theorem content_type_only_if_empty : forall ex ct,
 Proof. exact ReloadProps.content_type_only_if_empty. Qed.
 (* ---- every schedule of concurrent Reloads and requests ---- *)
 Theorem no_torn_state : forall c threads sched, fresh threads ->
-  c_cur (crun (cinit c threads) sched) = last_success c (ops_of threads (c_lin (crun (cinit c threads) sched))).
+  c_cur (crun (conc_init c threads) sched) = last_success c (ops_of threads (c_lin (crun (conc_init c threads) sched))).
 Proof. exact ReloadConcProps.no_torn_state. Qed.
-Theorem lin_nodup : forall c threads sched, fresh threads -> NoDup (c_lin (crun (cinit c threads) sched)).
+Theorem lin_nodup : forall c threads sched, fresh threads -> NoDup (c_lin (crun (conc_init c threads) sched)).
 Proof. exact ReloadConcProps.lin_nodup. Qed.
 Theorem linearizable : forall c threads sched i a, fresh threads ->
-  nth_error (c_threads (crun (cinit c threads) sched)) i = Some (TDone a) ->
-  exists k, index_of (c_lin (crun (cinit c threads) sched)) i = Some k /\
-            nth_error (run false (mkRS c) (ops_of threads (c_lin (crun (cinit c threads) sched)))) k = Some a.
+  nth_error (c_threads (crun (conc_init c threads) sched)) i = Some (TDone a) ->
+  exists k, index_of (c_lin (crun (conc_init c threads) sched)) i = Some k /\
+            nth_error (run false (mkRS c) (ops_of threads (c_lin (crun (conc_init c threads) sched)))) k = Some a.
 Proof. exact ReloadConcProps.linearizable. Qed.
 Theorem real_time_order : forall c threads sched s1 s2 i j kj, fresh threads ->
   sched = s1 ++ s2 ->
-  (exists ai, nth_error (c_threads (crun (cinit c threads) s1)) i = Some (TDone ai)) ->
+  (exists ai, nth_error (c_threads (crun (conc_init c threads) s1)) i = Some (TDone ai)) ->
   ~ In j s1 ->
-  index_of (c_lin (crun (cinit c threads) sched)) j = Some kj ->
-  exists ki, index_of (c_lin (crun (cinit c threads) sched)) i = Some ki /\ ki < kj.
+  index_of (c_lin (crun (conc_init c threads) sched)) j = Some kj ->
+  exists ki, index_of (c_lin (crun (conc_init c threads) sched)) i = Some ki /\ ki < kj.
 Proof. exact ReloadConcProps.real_time_order. Qed.
 Theorem request_after_reload_sees_it : forall c threads sched s1 s2 r q v ex a, fresh threads ->
   sched = s1 ++ s2 ->
   nth_error threads r = Some (TReload (BOk v)) -> nth_error threads q = Some (TReq ex) ->
-  nth_error (c_threads (crun (cinit c threads) s1)) r = Some (TDone AReloadOk) -> ~ In q s1 ->
-  nth_error (c_threads (crun (cinit c threads) sched)) q = Some (TDone a) ->
+  nth_error (c_threads (crun (conc_init c threads) s1)) r = Some (TDone AReloadOk) -> ~ In q s1 ->
+  nth_error (c_threads (crun (conc_init c threads) sched)) q = Some (TDone a) ->
   exists v', a = lookup_in v' ex /\
     (v' = v \/ exists r' kr kr' kq, r' <> r /\ nth_error threads r' = Some (TReload (BOk v')) /\
-       index_of (c_lin (crun (cinit c threads) sched)) r = Some kr /\
-       index_of (c_lin (crun (cinit c threads) sched)) r' = Some kr' /\
-       index_of (c_lin (crun (cinit c threads) sched)) q = Some kq /\ kr < kr' /\ kr' < kq).
+       index_of (c_lin (crun (conc_init c threads) sched)) r = Some kr /\
+       index_of (c_lin (crun (conc_init c threads) sched)) r' = Some kr' /\
+       index_of (c_lin (crun (conc_init c threads) sched)) q = Some kq /\ kr < kr' /\ kr' < kq).
 Proof. exact ReloadConcProps.request_after_reload_sees_it_strong. Qed.
 Print Assumptions linearizable.
 Print Assumptions real_time_order.
@@ -70,7 +70,7 @@ Proof. reflexivity. Qed.
 
 (* a request's load falls between a Reload's build and its store: it is served from the old set, and linearized first *)
 Example conc_example :
-  let s := crun (cinit (Some 0) [TReload (BOk 1); TReq true; TReload BFail; TReq false; TReload (BOk 2)]) [0; 1; 0; 2; 1; 3; 3] in
+  let s := crun (conc_init (Some 0) [TReload (BOk 1); TReq true; TReload BFail; TReq false; TReload (BOk 2)]) [0; 1; 0; 2; 1; 3; 3] in
   c_lin s = [1; 0; 2; 3] /\ c_cur s = Some 1 /\
   c_threads s = [TDone AReloadOk; TDone (AServed 0); TDone AReloadErr; TDone (ANotFound 1); TReload (BOk 2)].
 Proof. repeat split; reflexivity. Qed.
